@@ -79,23 +79,30 @@ func (l *Logger) WithGroup(name string) *Logger {
 //   - If args[i] is an Attr, it is used as is.
 //   - If args[i] is a string and is not the last argument, it is treated as slog.Attr{args[i], args[i+1]}.
 //   - Otherwise, the args[i] is treated as slog.Attr{"!BADKEY", args[i]}.
+//
+// Like slog.Record.Add, it drops attributes whose value is an empty group.
 func argsToAttrs(args []any) (attrs []slog.Attr) {
 	const badKey = "!BADKEY"
 
 	for i := 0; i < len(args); i++ {
+		var a slog.Attr
 		switch x := args[i].(type) {
 		case string:
 			if i+1 < len(args) {
-				attrs = append(attrs, slog.Any(x, args[i+1]))
+				a = slog.Any(x, args[i+1])
 				i++
 			} else {
-				attrs = append(attrs, slog.String(badKey, x))
+				a = slog.String(badKey, x)
 			}
 		case slog.Attr:
-			attrs = append(attrs, x)
+			a = x
 		default:
-			attrs = append(attrs, slog.Any(badKey, x))
+			a = slog.Any(badKey, x)
 		}
+		if a.Value.Kind() == slog.KindGroup && len(a.Value.Group()) == 0 {
+			continue
+		}
+		attrs = append(attrs, a)
 	}
 	return attrs
 }
